@@ -48,7 +48,7 @@ func buildTwin(tb *Table, cfg RouterCfg, capacity int, nGlobal int, routeMW []in
 }
 
 func runC07(e *Env) {
-	e.Rule = "twin routers built from the same generated table/options/middleware, one without caching and one with capacity in {0,1,2,3,5,1000} (CachingWithNum or EnableCaching+MaxNumCaches); request histories (20..200 requests) drawn with repetition from a pool of 2..5 paths, each under 1..3 methods (so that one path is hit by GET, HEAD and wrong-method requests), incl. HEAD->GET, wrong-method (405 probing) and 404 requests; after every request Match (route, params, allowed set) and ServeHTTP (handler trace with params seen by each handler, status, headers, body) of the twins are compared. A reference LRU predicts hits and evictions; histories are extended until it predicts >= 5 hits (and >= 3 evictions when the capacity is below the pool size). Non-trivial: a history with predicted hits; distinct by (table, options, capacity, history)."
+	e.Rule = "twin routers built from the same generated table/options/middleware, one without caching and one with capacity in {0,1,2,3,5,1000} (CachingWithNum or EnableCaching+MaxNumCaches); request histories (20..200 requests) drawn with repetition from a pool of 2..5 paths, each under 1..3 methods (so that one path is hit by GET, HEAD and wrong-method requests), incl. HEAD->GET, wrong-method (405 probing) and 404 requests; after every request Match (route, params, allowed set) and ServeHTTP (handler trace with params seen by each handler, status, headers, body) of the twins are compared. A reference LRU predicts hits and evictions; histories are extended until it predicts >= 5 hits (and >= 3 evictions when the capacity is below the pool size). Non-trivial: a history with predicted hits; distinct by (table, options, capacity, history). A third of the cached routers are built from option values that a decoy router (same paths, other handlers) was built from before and that served the request pool first; nil-ness of Params is part of the observation."
 	e.Assumptions = []string{
 		"handlers treat Params as read-only; registration is finished before the first request",
 		"the uncached twin is the specification; both twins are built by the same code path with one option different",
